@@ -198,9 +198,15 @@ def handleCodec : Handler
         match marshal ti v with
         | .error _ => pure (st, "remarshal-failed")
         | .ok c =>
+          -- known finding 12: an empty text in the last emitted position cannot be read back
+          let body : Bytes := (marshalFields v ti.fields none []).toOption.getD []
+          let lastMember := (GoCrypt.RefParse.splitOn comma ((GoCrypt.RefParse.splitOn dollar body).getLast?.getD [])).getLast?.getD []
+          let anyEmitted := (GoCrypt.Respell.pieces v ti.fields).map (fun ps => !ps.isEmpty) |>.getD false
+          let dom := if GoCrypt.CodecDomain.unambiguous ti && GoCrypt.CodecDomain.representable ti v then "in" else "out"
+          let cls := s!" #dom={dom}" ++ (if anyEmitted && lastMember.isEmpty then " class=empty-last-field" else "")
           match unmarshal ti c with
-          | .error _ => pure (st, "reject")
-          | .ok out2 => pure (st, if finalVals ti out2 == v then "stable" else "diff")
+          | .error _ => pure (st, "reject" ++ cls)
+          | .ok out2 => pure (st, (if finalVals ti out2 == v then "stable" else "diff") ++ cls)
   | st, "respell" :: id :: h :: vals => do
     let ti ← st.shapes.lookup id
     let h ← ofHex h
